@@ -1,6 +1,6 @@
 """C06 - the parser is total and its diagnostics point at the offending source.
 Monitors: exception filter + position-consistency oracle on every BareScriptParserError, marker accounting
-on every accepted text, open-construct rejection, context-independent columns, prepend-shift metamorphic relation."""
+on every accepted text, open-construct rejection, context-independent columns, prepend-shift metamorphic relation (also with blank/comment lines holding FF, VT, NEL, U+2028/9)."""
 import json
 import random
 import re
@@ -166,6 +166,10 @@ def check_text(text, acc, api, start=1, must_reject=False, reject_or_account=Fal
         # prepend shift (metamorphic)
         k = 1 + (len(text) % 3)
         prefix = ['# c', '', 'zz = 1'][:k]
+        if len(text) % 2:
+            # blank / comment lines may contain characters that other line-splitting conventions treat as line ends (form feed,
+            # vertical tab, NEL, U+2028 ...): here only LF and CRLF end a line, so each of these is still ONE line
+            prefix = ['# page\x0cbreak \u2028 and \x85 in a comment', '\x0c', "zz = 'a\u2029b' + \"c\x0bd\x1c\""][:k]
         base = fields(exc)
         for variant, (t2, s2) in (('lines', ('\n'.join(prefix) + '\n' + text, start)), ('start', (text, start + k))):
             try:
@@ -325,7 +329,7 @@ def with_layout_noise(rnd, text):
     out = []
     for ln in text.split('\n'):
         if rnd.random() < 0.2:
-            out.append(rnd.choice(['', '# note', '   ']))
+            out.append(rnd.choice(['', '# note', '   ', '\x0c', '# note\u2028continued \x0b', ' \x85 ', '\x1c\x1d', '# cr \r inside']))
         if rnd.random() < 0.25 and "'" not in ln and '"' not in ln and ' ' in ln.strip():
             s = ln.rstrip()
             cut = [m.start() for m in re.finditer(r' ', s) if m.start() > len(s) - len(s.lstrip())]
